@@ -23,6 +23,7 @@ Reading of the source (part of the trusted base)
   - `value`      : what the function returns;
   - `local:NAME` : the value of local NAME after its last assignment (the body is cut after the last top-level
                    statement that stores NAME; later statements only consume it);
+  - `isin_arg`   : the same for the local that the function hands to its single `.isin(<local>)` call;
   - `raise_cond` : the condition of the first top-level `if` whose body ends in `raise`.
 """
 from __future__ import annotations
@@ -65,15 +66,19 @@ class SetFn:
         src, t = self.expr(g.iter, env)
         if t != COLL:
             raise Untranslatable("comprehension over a non-collection: " + ast.unparse(g.iter))
-        var = g.target.id
+        # bound variables get canonical names (x0, x1, ... by nesting depth): the generated term does not depend on
+        # how the source calls its loop variables
+        depth = env.get("$depth", 0)
+        var = f"x{depth}"
         inner = dict(env)
-        inner[var] = (var, STR)
+        inner[g.target.id] = (var, STR)
+        inner["$depth"] = depth + 1
         conds = [self.boolean(c, inner) for c in g.ifs]
-        return var, src, conds, inner
+        return g.target.id, var, src, conds, inner
 
     def _filter(self, elt, gens, env):
-        var, src, conds, _inner = self._comp(gens, env)
-        if not (isinstance(elt, ast.Name) and elt.id == var):
+        pyvar, var, src, conds, _inner = self._comp(gens, env)
+        if not (isinstance(elt, ast.Name) and elt.id == pyvar):
             raise Untranslatable("comprehension whose element is not its loop variable: " + ast.unparse(elt))
         out = src
         for c in conds:
@@ -99,7 +104,7 @@ class SetFn:
             b, tb = self.expr(e.right, env)
             if ta == COLL and tb == COLL:
                 neg = "!" if isinstance(e.op, ast.Sub) else ""
-                return f"({a}.filter (fun x => {neg}({b}.contains x)))", COLL
+                return f"({a}.filter (fun y => {neg}({b}.contains y)))", COLL
             raise Untranslatable(ast.unparse(e))
         if isinstance(e, ast.IfExp):
             c = self.boolean(e.test, env)
@@ -134,12 +139,12 @@ class SetFn:
                     if t == COLL:
                         return f"(({v}.map String.length).foldl max 0)", NAT
                 if isinstance(a, (ast.GeneratorExp, ast.ListComp)):
-                    var, src, conds, _inner = self._comp(a.generators, env)
-                    if not conds and ast.unparse(a.elt) == f"len({var})":
+                    pyvar, var, src, conds, _inner = self._comp(a.generators, env)
+                    if not conds and ast.unparse(a.elt) == f"len({pyvar})":
                         return f"(({src}.map String.length).foldl max 0)", NAT
                 raise Untranslatable(ast.unparse(e))
             if f in ("any", "all") and len(args) == 1 and isinstance(args[0], (ast.GeneratorExp, ast.ListComp)):
-                var, src, conds, inner = self._comp(args[0].generators, env)
+                _pyvar, var, src, conds, inner = self._comp(args[0].generators, env)
                 body = self.boolean(args[0].elt, inner)
                 for c in reversed(conds):
                     body = f"({c} && {body})" if f == "any" else f"(!{c} || {body})"
@@ -159,13 +164,13 @@ class SetFn:
                     return f"({recv}.startsWith {arg})", BOOL
                 if tr == COLL and ta == COLL:
                     if m == "isdisjoint":
-                        return f"({recv}.all (fun x => !({arg}.contains x)))", BOOL
+                        return f"({recv}.all (fun y => !({arg}.contains y)))", BOOL
                     if m == "intersection":
-                        return f"({recv}.filter (fun x => ({arg}.contains x)))", COLL
+                        return f"({recv}.filter (fun y => ({arg}.contains y)))", COLL
                     if m == "difference":
-                        return f"({recv}.filter (fun x => !({arg}.contains x)))", COLL
+                        return f"({recv}.filter (fun y => !({arg}.contains y)))", COLL
                     if m == "issubset":
-                        return f"({recv}.all (fun x => ({arg}.contains x)))", BOOL
+                        return f"({recv}.all (fun y => ({arg}.contains y)))", BOOL
             raise Untranslatable("call " + ast.unparse(e))
         raise Untranslatable(ast.unparse(e))
 
@@ -233,6 +238,12 @@ class SetFn:
         body = list(self.fn.body)
         if mode == "value":
             return body
+        if mode == "isin_arg":
+            calls = [n for n in ast.walk(self.fn) if isinstance(n, ast.Call) and isinstance(n.func, ast.Attribute)
+                     and n.func.attr == "isin" and len(n.args) == 1 and isinstance(n.args[0], ast.Name)]
+            if len(calls) != 1:
+                raise Untranslatable("expected exactly one `.isin(<local>)` call")
+            mode = "local:" + calls[0].args[0].id
         if mode.startswith("local:"):
             name = mode[6:]
             last = -1
